@@ -10,6 +10,7 @@
 -/
 import Pdt.Model.Sql
 import Pdt.Props.C15
+import Pdt.Props.C01Frag
 
 namespace Pdt.C01
 open Pdt Pdt.Spec Pdt.Sql
@@ -78,5 +79,26 @@ theorem compile_marker_fresh (i : NodeId) (c : Ast) (needed : Needed) (r : Compi
       r'.query.where_ = [] ∧ r'.query.having = [] ∧ r'.query.groupBy = [] ∧ r'.query.orderBy = [] ∧
       r'.query.limit = none ∧ r'.query.offset = none ∧ (∃ q d o, r'.src = .subquery r.src q d o) := by
   exact ⟨_, _, by simp only [compile, hc, bind, Except.bind, pure, Except.pure]; rfl, rfl, rfl, rfl, rfl, rfl, rfl, ⟨_, _, _, rfl⟩⟩
+
+/-! ### refinement, row-level fragment (proved in `C01Frag.lean`) -/
+
+/-- For every pipeline built from a source table by `select`, `rename`, `filter` and `mutate` with
+    element-wise expressions (any length and nesting; computed columns used by later verbs, overwritten
+    and hidden columns), every database and every `needed_cols` state: the SQL compiler succeeds and
+    the SELECT it builds evaluates to exactly the frame (names, order, rows in order) of the reference
+    semantics.  The induction carries `C01.Inv`; the key steps are the substitution lemma
+    `Sql.inline_eval` (inlining a definition = reading the computed column) and
+    `Spec.evalUnits_ewise` (column-at-a-time = row-at-a-time for element-wise expressions). -/
+theorem refinement_rowlevel {ast : Ast} {sc : List Uid} (h : Frag ast sc) (db : DB) (needed : Needed) :
+    ∃ r n', compile ast needed = .ok (r, n') ∧ Sql.run db r = (Spec.run db ast).frame :=
+  sql_refines_spec_rowlevel h db needed
+
+/-- the compiled query of such a pipeline is a single SELECT over the base table: WHERE holds all
+    predicates, nothing else is set -/
+theorem rowlevel_single_select {ast : Ast} {sc : List Uid} (h : Frag ast sc) (db : DB) (needed : Needed) :
+    ∃ r n', compile ast needed = .ok (r, n') ∧ r.query.groupBy = [] ∧ r.query.having = [] ∧ r.query.orderBy = [] ∧
+      r.query.limit = none := by
+  obtain ⟨r, n', hc, inv⟩ := frag_refines h db needed
+  exact ⟨r, n', hc, inv.hg, inv.hh, inv.ho, inv.hl⟩
 
 end Pdt.C01
